@@ -12,7 +12,9 @@ import (
 	"math/rand"
 	"os"
 	"path/filepath"
+	"regexp"
 	"strconv"
+	"strings"
 	"testing"
 
 	"github.com/oasisprotocol/curve25519-voi/curve"
@@ -316,8 +318,49 @@ func TestVerifCT(t *testing.T) {
 		{"control/scalar.NonAdjacentForm", true, func(s []byte) { d := sc(s).NonAdjacentForm(5); sink ^= byte(d[7]) }},
 	}
 	secs := secrets(r, n)
+	// selections used by the machine-level observation: a subset of operations (regular expression on the name),
+	// a subset of the secrets (indices), optionally in reverse order (a signature that moves with the position
+	// instead of the secret is an artefact of the process, not of the secret)
+	type pick struct {
+		i int
+		s []byte
+	}
+	var order []pick
+	for i, s := range secs {
+		order = append(order, pick{i, s})
+	}
+	if v := os.Getenv("VERIF_SECRETS"); v != "" {
+		order = nil
+		for _, f := range strings.Split(v, ",") {
+			if i, err := strconv.Atoi(f); err == nil && i < len(secs) {
+				order = append(order, pick{i, secs[i]})
+			}
+		}
+	}
+	if os.Getenv("VERIF_ORDER") == "rev" {
+		for a, b := 0, len(order)-1; a < b; a, b = a+1, b-1 {
+			order[a], order[b] = order[b], order[a]
+		}
+	}
+	var opsRe *regexp.Regexp
+	if v := os.Getenv("VERIF_OPS"); v != "" {
+		opsRe = regexp.MustCompile(v)
+	}
+	warm := bytes.Repeat([]byte{0x5a}, 64)
+	warm[31], warm[63] = 0x0a, 0x0a
 	for _, o := range ops {
-		for i, s := range secs {
+		if opsRe != nil && !opsRe.MatchString(o.name) {
+			continue
+		}
+		if verifobs.Machine() {
+			// warm-up with the markers off: stacks grown, pools filled, lazily built tables built
+			verifobs.Arm(false)
+			o.f(append([]byte(nil), warm...))
+			o.f(append([]byte(nil), warm...))
+			verifobs.Arm(true)
+		}
+		for _, pk := range order {
+			i, s := pk.i, pk.s
 			if o.name == "scalar.Invert" || o.name == "field.Invert" {
 				if bytes.Equal(s[:32], make([]byte, 32)) {
 					continue // zero is outside the contract of Invert
